@@ -1,4 +1,762 @@
-import AY.Spec.Plain
+/-
+  C16 — "!append / !extend / !prev move and grow existing content without loss".
+
+  Statement (properties.jsonl): 'p: !append L' makes the value at p the previous list followed by
+  the elements of L (and fails if there is no previous list), '!extend' does the same but silently
+  becomes a plain list when there is nothing to extend, and 'q: !prev p' places the entire previous
+  subtree of p at q and removes it from p. In all cases every other path keeps its value, and
+  elements keep their order and identity of content.
+  Quantifier: every base config, every target path (top level or nested, existing or missing, list
+  or non-list), every appended list and every sequence of several such operators.
+
+  The theorems are about `premergeF` / `premergeChildren` / `removeNode` / `extendList` /
+  `newPlainList` of AY.Model.Build for ALL nodes (any class, any flags).  `premergeF (fuel+1) n
+  path into` is `n.ayns.on_premerge(path, into)`: it returns the node that takes the place of `n`
+  in the stage, whether it is the same object, and the accumulated tree `into` after the operator
+  detached what it needs.  The stage is merged afterwards by the ordinary merge (C01/C02/C05).
+  Auxiliary definitions and proofs: AY/Lemmas/C16Build.lean (data of `extendList`, `newPlainList`),
+  C16Remove.lean (`removeNode` = `removeChild` on the parent + `setNodeAt`), C16Frame.lean (frame),
+  C16Ops.lean (`c16_numbered`, `getNode` ⇒ `removeNode`, the loop), C16Commute.lean, C16Stage.lean,
+  C16Numbered.lean.
+-/
+import AY.Lemmas.C16Ops
+import AY.Lemmas.C16Commute
+import AY.Lemmas.C16Stage
+import AY.Lemmas.C16Numbered
 namespace AY
-theorem C16_placeholder : foldUpd [] = .error .value := rfl
+
+/-! ### Concrete nodes used by the non-vacuity examples -/
+
+def c16Leaf (i : Int) : Node := .leaf {} (.scalar (.int i))
+
+/-- `[1, 2, 3]` -/
+def c16List : Node := .comp {} .list [(.int 0, c16Leaf 1), (.int 1, c16Leaf 2), (.int 2, c16Leaf 3)]
+
+/-- `{a: {l: [1, 2, 3], x: 5}, b: 7}` -/
+def c16Root : Node :=
+  .comp {} .dict
+    [(.str "a", .comp {} .dict [(.str "l", c16List), (.str "x", c16Leaf 5)]), (.str "b", c16Leaf 7)]
+
+/-- `{a: {x: 5}, b: 7}` : `c16Root` without `a.l` -/
+def c16RootNoL : Node :=
+  .comp {} .dict [(.str "a", .comp {} .dict [(.str "x", c16Leaf 5)]), (.str "b", c16Leaf 7)]
+
+/-- the children of `!append [8, 9]` / `!extend [8, 9]` -/
+def c16New : List (Key × Node) := [(.int 0, c16Leaf 8), (.int 1, c16Leaf 9)]
+
+/-- `{l: [1, 2, 3]}` -/
+def c16RootL : Node := .comp {} .dict [(.str "l", c16List)]
+
+/-- the stage `{a: !prev l[0], b: !prev l[1]}` -/
+def c16StageAB : Node :=
+  .comp {} .dict [(.str "a", .leaf {} (.prev "l[0]")), (.str "b", .leaf {} (.prev "l[1]"))]
+
+/-- the same stage with the two keys written in the other order: `{b: !prev l[1], a: !prev l[0]}` -/
+def c16StageBA : Node :=
+  .comp {} .dict [(.str "b", .leaf {} (.prev "l[1]")), (.str "a", .leaf {} (.prev "l[0]"))]
+
+/-! ### `!append` -/
+
+/- "'p: !append L' makes the value at p the previous list followed by the elements of L":
+   when the accumulated tree `root` has a list-family node `comp tf tk tcs` at the path `path` of
+   the `!append` node (`remove_node` detaches it, leaving `root'`), the `!append` node is replaced
+   (`false`: by another object) by that very node — same flags `tf`, same class `tk` — whose
+   children are the old children followed by the adopted elements of `L` (`extendList`), and the
+   accumulated tree continues as `root'` (the old list no longer sits at `path`, so the following
+   merge simply inserts the grown list). -/
+theorem C16_append (fuel : Nat) (f : Flags) (cs : List (Key × Node)) (path : Path)
+    (root root' : Node) (tf : Flags) (tk : CompKind) (tcs : List (Key × Node))
+    (hr : removeNode root path = some (.comp tf tk tcs, root')) (hk : tk.isListFam = true) :
+    premergeF (fuel + 1) (.comp f .append cs) path (some root) =
+      .ok (.comp tf tk (extendList tf tk tcs (cs.map (·.2))), false, some root') := by
+  simp [premergeF, hr, hk]
+
+example : removeNode c16Root [.str "a", .str "l"] = some (c16List, c16RootNoL) := rfl
+example : premergeF 1 (.comp {} .append c16New) [.str "a", .str "l"] (some c16Root) =
+    .ok (.comp {} .list (extendList {} .list c16List.children [c16Leaf 8, c16Leaf 9]), false,
+      some c16RootNoL) :=
+  C16_append 0 {} c16New _ c16Root c16RootNoL {} .list _ rfl rfl
+
+/- "… the previous list followed by the elements of L … elements keep their order and identity of
+   content": the data (`nativeVals`) of the extended children is the data of the old children
+   followed by the data of the new elements, in order; the old children themselves (keys and nodes,
+   with all their flags) are an untouched prefix of the new children; a list numbered `0 … n-1`
+   stays numbered. -/
+theorem C16_extendList_native (tf : Flags) (tk : CompKind) (tcs : List (Key × Node)) (vs : List Node) :
+    nativeVals (extendList tf tk tcs vs) = nativeVals tcs ++ vs.map native ∧
+    tcs <+: extendList tf tk tcs vs ∧
+    (extendList tf tk tcs vs).length = tcs.length + vs.length ∧
+    (listKeys 0 tcs = true → listKeys 0 (extendList tf tk tcs vs) = true) :=
+  ⟨c16_nativeVals_extendList tf tk vs tcs, c16_extendList_prefix tf tk vs tcs,
+    c16_length_extendList tf tk vs tcs, c16_listKeys_extendList tf tk vs tcs⟩
+
+example : nativeVals (extendList {} .list c16List.children [c16Leaf 8, c16Leaf 9]) =
+    [.scalar (.int 1), .scalar (.int 2), .scalar (.int 3), .scalar (.int 8), .scalar (.int 9)] := rfl
+
+/- The same at the level of the operator: under the hypotheses of `C16_append` the data of the
+   node that replaces `!append L` is the list `old ++ L` where `old` is the data of the detached
+   list (`native (comp tf tk tcs) = list (nativeVals tcs)`). -/
+theorem C16_append_native (fuel : Nat) (f : Flags) (cs : List (Key × Node)) (path : Path)
+    (root root' : Node) (tf : Flags) (tk : CompKind) (tcs : List (Key × Node))
+    (hr : removeNode root path = some (.comp tf tk tcs, root')) (hk : tk.isListFam = true) :
+    native (.comp tf tk tcs) = .list (nativeVals tcs) ∧
+    (premergeF (fuel + 1) (.comp f .append cs) path (some root)).map (fun r => native r.1) =
+      .ok (.list (nativeVals tcs ++ cs.map (fun kv => native kv.2))) := by
+  have hd : tk.isDictFam = false := by simpa [CompKind.isListFam] using hk
+  rw [C16_append fuel f cs path root root' tf tk tcs hr hk]
+  simp [Except.map, native, hd, c16_nativeVals_extendList, List.map_map, Function.comp_def]
+
+example : (premergeF 1 (.comp {} .append c16New) [.str "a", .str "l"] (some c16Root)).map
+    (fun r => native r.1) =
+    .ok (.list [.scalar (.int 1), .scalar (.int 2), .scalar (.int 3), .scalar (.int 8), .scalar (.int 9)]) := rfl
+
+/- "(and fails if there is no previous list)", case 1: nothing can be detached at `path`
+   (`remove_node` raises) — in particular whenever `get_node` finds nothing there
+   (`C16_removeNode_none`) — then `!append` raises a PremergeError. -/
+theorem C16_append_missing (fuel : Nat) (f : Flags) (cs : List (Key × Node)) (path : Path)
+    (root : Node) (hr : removeNode root path = none) :
+    premergeF (fuel + 1) (.comp f .append cs) path (some root) = .error .premerge := by
+  simp [premergeF, hr]
+
+example : removeNode c16Root [.str "a", .str "nolist"] = none := rfl
+example : premergeF 1 (.comp {} .append c16New) [.str "a", .str "nolist"] (some c16Root) = .error .premerge := rfl
+
+/- "(and fails if there is no previous list)", case 2: the detached node is not a list (a leaf, or
+   a container of the mapping family) — PremergeError. -/
+theorem C16_append_not_list (fuel : Nat) (f : Flags) (cs : List (Key × Node)) (path : Path)
+    (root root' d : Node) (hr : removeNode root path = some (d, root'))
+    (hd : ∀ tf tk tcs, d = .comp tf tk tcs → tk.isListFam = false) :
+    premergeF (fuel + 1) (.comp f .append cs) path (some root) = .error .premerge := by
+  cases d with
+  | leaf lf lk => simp [premergeF, hr]
+  | comp tf tk tcs => simp [premergeF, hr, hd tf tk tcs rfl]
+
+-- a scalar (`b: 7`) and a mapping (`a: {…}`)
+example : (removeNode c16Root [.str "b"]).map (fun r => r.1.isComp) = some false := rfl
+example : (removeNode c16Root [.str "a"]).map (fun r => r.1.isDict) = some true := rfl
+example : premergeF 1 (.comp {} .append c16New) [.str "b"] (some c16Root) = .error .premerge := rfl
+example : premergeF 1 (.comp {} .append c16New) [.str "a"] (some c16Root) = .error .premerge := rfl
+
+/- First stage (there is no accumulated tree, `into = None`): `!append L` is built as the plain
+   list `ConfigList(L)`, whose data is `L`. -/
+theorem C16_append_first_stage (fuel : Nat) (f : Flags) (cs : List (Key × Node)) (path : Path) :
+    premergeF (fuel + 1) (.comp f .append cs) path none =
+      .ok (newPlainList (cs.map (·.2)), false, none) ∧
+    native (newPlainList (cs.map (·.2))) = .list (cs.map (fun kv => native kv.2)) := by
+  refine ⟨by simp [premergeF], ?_⟩
+  rw [c16_native_newPlainList]; simp [List.map_map, Function.comp_def]
+
+example : native (newPlainList (c16New.map (·.2))) = .list [.scalar (.int 8), .scalar (.int 9)] := rfl
+
+/-! ### `!extend` -/
+
+/- "'!extend' does the same [as !append]": when `get_node` finds a list-family node at `path` and
+   `remove_node` detaches it, the result is that node extended by `L`, exactly as for `!append`
+   (data: `C16_extendList_native`). -/
+theorem C16_extend (fuel : Nat) (f : Flags) (cs : List (Key × Node)) (path : Path)
+    (root root' : Node) (tf : Flags) (tk : CompKind) (tcs : List (Key × Node))
+    (hr : removeNode root path = some (.comp tf tk tcs, root')) (hk : tk.isListFam = true) :
+    premergeF (fuel + 1) (.comp f .extend cs) path (some root) =
+      .ok (.comp tf tk (extendList tf tk tcs (cs.map (·.2))), false, some root') ∧
+    premergeF (fuel + 1) (.comp f .extend cs) path (some root) =
+      premergeF (fuel + 1) (.comp f .append cs) path (some root) := by
+  have hg := c16_removeNode_getNode hr
+  rw [C16_append fuel f cs path root root' tf tk tcs hr hk]
+  simp [premergeF, hg, hr, hk]
+
+example : premergeF 1 (.comp {} .extend c16New) [.str "a", .str "l"] (some c16Root) =
+    .ok (.comp {} .list (extendList {} .list c16List.children [c16Leaf 8, c16Leaf 9]), false,
+      some c16RootNoL) :=
+  (C16_extend 0 {} c16New _ c16Root c16RootNoL {} .list _ rfl rfl).1
+
+/- The success case stated from `get_node` alone: in a tree whose lists are numbered `0 … n-1`
+   (`c16_numbered`, the representation invariant of `ConfigList`), whenever `get_node` finds a
+   list-family node at a non-root path, `remove_node` detaches that same node, and `!extend`
+   (and `!append`) succeed with it. -/
+theorem C16_extend_of_getNode (fuel : Nat) (f : Flags) (cs : List (Key × Node)) (path : Path)
+    (root : Node) (tf : Flags) (tk : CompKind) (tcs : List (Key × Node))
+    (hn : c16_numbered root = true) (hne : path ≠ [])
+    (hg : getNode root path = some (.comp tf tk tcs)) (hk : tk.isListFam = true) :
+    ∃ root', removeNode root path = some (.comp tf tk tcs, root') ∧
+      premergeF (fuel + 1) (.comp f .extend cs) path (some root) =
+        .ok (.comp tf tk (extendList tf tk tcs (cs.map (·.2))), false, some root') := by
+  obtain ⟨root', hr⟩ := c16_removeNode_of_numbered hn hne hg
+  exact ⟨root', hr, (C16_extend fuel f cs path root root' tf tk tcs hr hk).1⟩
+
+example : c16_numbered c16Root = true ∧ getNode c16Root [.str "a", .str "l"] = some c16List :=
+  ⟨by decide, rfl⟩
+example := C16_extend_of_getNode 0 {} c16New [.str "a", .str "l"] c16Root {} .list _ (by decide)
+  (by simp) rfl rfl
+
+/- "but silently becomes a plain list when there is nothing to extend": if `get_node` finds no
+   list-family container at `path` — the path is missing, or holds a leaf, or holds a container
+   of the mapping family — `!extend L` becomes the plain list `ConfigList(L)` and the accumulated
+   tree is returned untouched (the very same `root`). -/
+theorem C16_extend_fallback (fuel : Nat) (f : Flags) (cs : List (Key × Node)) (path : Path)
+    (root : Node)
+    (hg : ∀ tf tk tcs, getNode root path = some (.comp tf tk tcs) → tk.isListFam = false) :
+    premergeF (fuel + 1) (.comp f .extend cs) path (some root) =
+      .ok (newPlainList (cs.map (·.2)), false, some root) := by
+  simp only [premergeF]
+  cases hn : getNode root path with
+  | none => rfl
+  | some n =>
+    cases n with
+    | leaf lf lk => rfl
+    | comp tf tk tcs => simp [hg tf tk tcs hn]
+
+-- missing path, scalar, mapping
+example : getNode c16Root [.str "fresh"] = none := rfl
+example : premergeF 1 (.comp {} .extend c16New) [.str "fresh"] (some c16Root) =
+    .ok (newPlainList (c16New.map (·.2)), false, some c16Root) := rfl
+example : premergeF 1 (.comp {} .extend c16New) [.str "b"] (some c16Root) =
+    .ok (newPlainList (c16New.map (·.2)), false, some c16Root) := rfl
+example : premergeF 1 (.comp {} .extend c16New) [.str "a"] (some c16Root) =
+    .ok (newPlainList (c16New.map (·.2)), false, some c16Root) := rfl
+
+/- First stage (`into = None`): as for `!append`, the plain list `L`. -/
+theorem C16_extend_first_stage (fuel : Nat) (f : Flags) (cs : List (Key × Node)) (path : Path) :
+    premergeF (fuel + 1) (.comp f .extend cs) path none =
+      .ok (newPlainList (cs.map (·.2)), false, none) := by
+  simp [premergeF]
+
+example : (premergeF 1 (.comp {} .extend c16New) [.str "z"] none).map (fun r => native r.1) =
+    .ok (.list [.scalar (.int 8), .scalar (.int 9)]) := rfl
+
+/- The data of the fallback value: `ConfigList(L)` holds exactly the elements of `L`, in order
+   (for any list of nodes, whatever their flags). -/
+theorem C16_newPlainList_native (vs : List Node) : native (newPlainList vs) = .list (vs.map native) :=
+  c16_native_newPlainList vs
+
+example : native (newPlainList [c16List, c16Leaf 4]) =
+    .list [.list [.scalar (.int 1), .scalar (.int 2), .scalar (.int 3)], .scalar (.int 4)] := rfl
+
+/-! ### `!prev` -/
+
+/- "'q: !prev p' places the entire previous subtree of p at q and removes it from p": for a valid
+   path string `p` (`split_path`) whose node `d` can be detached from the accumulated tree, the
+   `!prev` node is replaced by `d` itself — the whole subtree, all flags included — and the tree
+   continues as `root'`, i.e. without `d` (`C16_removeNode_removed`, `C16_removeNode_frame`).
+   The result does not depend on where (`path`) the `!prev` node stands. -/
+theorem C16_prev_moves (fuel : Nat) (f : Flags) (p : String) (path tp : Path) (root root' d : Node)
+    (hs : splitPath p = some tp) (hr : removeNode root tp = some (d, root')) :
+    premergeF (fuel + 1) (.leaf f (.prev p)) path (some root) = .ok (d, false, some root') := by
+  simp [premergeF, hs, hr]
+
+example : splitPath "a.l" = some [.str "a", .str "l"] := by decide
+example : premergeF 1 (.leaf {} (.prev "a.l")) [.str "q"] (some c16Root) =
+    .ok (c16List, false, some c16RootNoL) :=
+  C16_prev_moves 0 {} "a.l" _ [.str "a", .str "l"] c16Root c16RootNoL c16List (by decide) rfl
+
+/- `!prev` fails with a PremergeError when there is no previous tree (first stage), when the path
+   string is not a valid node path, or when nothing can be detached at that path. -/
+theorem C16_prev_errors (fuel : Nat) (f : Flags) (p : String) (path : Path) :
+    premergeF (fuel + 1) (.leaf f (.prev p)) path none = .error .premerge ∧
+    (∀ root, splitPath p = none →
+      premergeF (fuel + 1) (.leaf f (.prev p)) path (some root) = .error .premerge) ∧
+    (∀ root tp, splitPath p = some tp → removeNode root tp = none →
+      premergeF (fuel + 1) (.leaf f (.prev p)) path (some root) = .error .premerge) := by
+  refine ⟨by simp [premergeF], ?_, ?_⟩
+  · intro root hs; simp [premergeF, hs]
+  · intro root tp hs hr; simp [premergeF, hs, hr]
+
+example : splitPath "a b" = none := by decide
+example : splitPath "nope" = some [.str "nope"] ∧ removeNode c16Root [.str "nope"] = none :=
+  ⟨by decide, rfl⟩
+example : premergeF 1 (.leaf {} (.prev "nope")) [.str "q"] (some c16Root) = .error .premerge := rfl
+
+/-! ### `remove_node` -/
+
+/- What `into.ayns.remove_node(tp)` does, exactly: `tp = pp ++ [key]`, the parent container
+   `comp pf pk pcs` exists at `pp`, the detached node `d` is its child `key`, the parent's
+   `remove_child(key)` yields the children `pcs'`, and the new tree is the old one with the parent
+   replaced by `comp pf pk pcs'` (same flags, same class) — nothing else is rebuilt. Conversely
+   these conditions make `remove_node` succeed with that result. -/
+theorem C16_removeNode_char (root : Node) (tp : Path) (d root' : Node) :
+    removeNode root tp = some (d, root') ↔
+    ∃ pp key pf pk pcs pcs', tp = pp ++ [key] ∧ getNode root pp = some (.comp pf pk pcs) ∧
+      alookup key pcs = some d ∧ removeChild pf pk key pcs = some pcs' ∧
+      root' = setNodeAt root pp (.comp pf pk pcs') := by
+  constructor
+  · exact c16_removeNode_char tp root d root'
+  · rintro ⟨pp, key, pf, pk, pcs, pcs', rfl, e2, e3, e4, rfl⟩
+    exact c16_removeNode_of_parent pp key root d pf pk pcs pcs' e2 e3 e4
+
+example : ∃ d root', removeNode c16Root [.str "a", .str "l", .int 1] = some (d, root') := ⟨_, _, rfl⟩
+
+/- "removes it from p", part 1: the detached node is the node `get_node` finds at that path;
+   hence a path `get_node` does not find cannot be removed. -/
+theorem C16_removeNode_spec (root : Node) (tp : Path) (d root' : Node)
+    (h : removeNode root tp = some (d, root')) : getNode root tp = some d :=
+  c16_removeNode_getNode h
+
+example : getNode c16Root [.str "a", .str "l"] = some c16List := rfl
+
+/- "fails if there is no previous list" / `!prev` of a missing path: a path `get_node` does not
+   find cannot be detached (contrapositive of `C16_removeNode_spec`), so `C16_append_missing` and
+   the third case of `C16_prev_errors` apply to every missing path. -/
+theorem C16_removeNode_none (root : Node) (tp : Path) (h : getNode root tp = none) :
+    removeNode root tp = none :=
+  c16_removeNode_none_of_getNode h
+
+example : getNode c16Root [.str "a", .str "l", .int 3] = none := rfl
+
+/- The converse, "what exists can be removed": below a mapping, or below a list whose elements
+   are numbered `0 … n-1`, an existing child is detached (and the result is the one described by
+   `C16_removeNode_char`).  [A list parent addressed through a key that `get_node` finds although
+   `_validate_index` rejects it cannot occur when lists are numbered.] -/
+theorem C16_removeNode_of_getNode (root : Node) (pp : Path) (key : Key) (n : Node) (pf : Flags)
+    (pk : CompKind) (pcs : List (Key × Node)) (hg : getNode root (pp ++ [key]) = some n)
+    (hp : getNode root pp = some (.comp pf pk pcs))
+    (hk : pk.isDictFam = true ∨ listKeys 0 pcs = true) :
+    ∃ pcs', removeChild pf pk key pcs = some pcs' ∧
+      removeNode root (pp ++ [key]) = some (n, setNodeAt root pp (.comp pf pk pcs')) :=
+  c16_removeNode_of_getNode hg hp hk
+
+example : getNode c16Root ([.str "a"] ++ [.str "l"]) = some c16List ∧
+    (getNode c16Root [.str "a"]).map Node.isDict = some true := ⟨rfl, rfl⟩
+
+/- "removes it from p", part 2 (mapping parent): when the parent container is of the mapping
+   family and its keys are distinct, nothing is found at the removed path afterwards.
+   (Under a list parent the next element moves into the freed slot: `C16_removeNode_list_parent`.) -/
+theorem C16_removeNode_removed (root : Node) (pp : Path) (key : Key) (d root' : Node) (pf : Flags)
+    (pk : CompKind) (pcs : List (Key × Node))
+    (h : removeNode root (pp ++ [key]) = some (d, root'))
+    (hp : getNode root pp = some (.comp pf pk pcs)) (hk : pk.isDictFam = true)
+    (hnd : keysNodup pcs = true) : getNode root' (pp ++ [key]) = none :=
+  c16_removed_dict h hp hk hnd
+
+example : getNode c16RootNoL [.str "a", .str "l"] = none := rfl
+
+/- "In all cases every other path keeps its value" (mapping parent): every path `q` that is neither
+   at/below the removed path nor above it (not a prefix of it) resolves to the very same node —
+   same data, same flags — before and after. No hypothesis on key distinctness is needed. -/
+theorem C16_removeNode_frame (root : Node) (pp : Path) (key : Key) (d root' : Node) (pf : Flags)
+    (pk : CompKind) (pcs : List (Key × Node))
+    (h : removeNode root (pp ++ [key]) = some (d, root'))
+    (hp : getNode root pp = some (.comp pf pk pcs)) (hk : pk.isDictFam = true) (q : Path)
+    (h1 : ¬ (pp ++ [key]) <+: q) (h2 : ¬ q <+: (pp ++ [key])) :
+    getNode root' q = getNode root q :=
+  c16_frame_dict h hp hk q h1 h2
+
+example : ¬ ([Key.str "a"] ++ [Key.str "l"]) <+: [.str "a", .str "x"] ∧
+    ¬ [Key.str "a", .str "x"] <+: ([Key.str "a"] ++ [Key.str "l"]) := by decide
+example : getNode c16RootNoL [.str "a", .str "x"] = getNode c16Root [.str "a", .str "x"] := rfl
+
+/- "every other path keeps its value" (any parent, list or mapping): every path that leaves the
+   path `pp` of the parent container (neither at/below `pp` nor above it) is untouched. -/
+theorem C16_removeNode_frame_outside_parent (root : Node) (pp : Path) (key : Key) (d root' : Node)
+    (h : removeNode root (pp ++ [key]) = some (d, root')) (q : Path)
+    (h1 : ¬ pp <+: q) (h2 : ¬ q <+: pp) : getNode root' q = getNode root q :=
+  c16_frame_outside_parent h q h1 h2
+
+example : ∃ d root', removeNode c16Root ([.str "a", .str "l"] ++ [.int 0]) = some (d, root') ∧
+    getNode root' [.str "a", .str "x"] = getNode c16Root [.str "a", .str "x"] := ⟨_, _, rfl, rfl⟩
+
+/- The paths above the removed one (strict prefixes `q` of `q ++ r`): the container found there
+   is still a container with the same flags and the same class; unless it is the parent itself
+   (`r` of length 1) it even has the same keys — only a descendant changed. -/
+theorem C16_removeNode_ancestor (root : Node) (q r : Path) (d root' : Node) (f : Flags)
+    (k : CompKind) (cs : List (Key × Node)) (h : removeNode root (q ++ r) = some (d, root'))
+    (hq : getNode root q = some (.comp f k cs)) (hr : r ≠ []) :
+    ∃ cs', getNode root' q = some (.comp f k cs') ∧ (r.length ≠ 1 → akeys cs' = akeys cs) :=
+  c16_ancestor h hq hr
+
+example : removeNode c16Root ([.str "a"] ++ [.str "l"]) = some (c16List, c16RootNoL) ∧
+    (getNode c16Root [.str "a"]).map Node.isDict = some true := ⟨rfl, rfl⟩
+example := C16_removeNode_ancestor c16Root [] [.str "a", .str "l"] c16List c16RootNoL {} .dict _ rfl rfl
+  (by simp)
+
+/- List parent: `remove_child` is `_del(i)` for the validated index `i` of the key: the children
+   become `listDelAt pf pk i pcs` — the elements before `i`
+   unchanged, those after `i` moved one slot down and re-adopted — so on the data the element `i`
+   is erased and all others keep their order; the list is one shorter and numbered `0 … n-2`;
+   for a numbered list and the key `j ≥ 0` the erased index is `j` itself and the detached node
+   is the `j`-th element. -/
+theorem C16_removeNode_list_parent (root : Node) (pp : Path) (key : Key) (d root' : Node)
+    (pf : Flags) (pk : CompKind) (pcs : List (Key × Node))
+    (h : removeNode root (pp ++ [key]) = some (d, root'))
+    (hp : getNode root pp = some (.comp pf pk pcs)) (hk : pk.isListFam = true) :
+    ∃ i, validateIndex pcs.length true key = some i ∧ i < pcs.length ∧
+      getNode root' pp = some (.comp pf pk (listDelAt pf pk i pcs)) ∧
+      nativeVals (listDelAt pf pk i pcs) = (nativeVals pcs).eraseIdx i ∧
+      (listDelAt pf pk i pcs).length = pcs.length - 1 ∧
+      listKeys 0 (listDelAt pf pk i pcs) = true ∧
+      (listKeys 0 pcs = true → key = .int (i : Int) ∧ (pcs.map (·.2))[i]? = some d) := by
+  obtain ⟨pcs', e3, e4, e5⟩ := c16_removeNode_parent h hp
+  obtain ⟨i, hv, hi, rfl⟩ := c16_removeChild_list hk e4
+  refine ⟨i, hv, hi, ?_, c16_nativeVals_listDelAt pf pk i pcs, c16_length_listDelAt pf pk i pcs hi,
+    c16_listKeys_listDelAt pf pk i pcs, ?_⟩
+  · rw [e5]; exact c16_getNode_setNodeAt_self pp root _ _ hp
+  · intro hl
+    obtain ⟨j, e1, e2, e6⟩ := c16_alookup_listKeys 0 pcs key d hl e3
+    have : validateIndex pcs.length true key = some j := by
+      rw [e1]; simpa using c16_validateIndex_nonneg e2
+    rw [hv] at this
+    injection this with this
+    subst this
+    exact ⟨by simpa using e1, e6⟩
+
+example : (removeNode c16Root ([.str "a", .str "l"] ++ [.int 0])).map
+    (fun r => (native r.1, (getNode r.2 [.str "a", .str "l"]).map native)) =
+    some (.scalar (.int 1), some (.list [.scalar (.int 2), .scalar (.int 3)])) := rfl
+-- a negative index is not a key of `_children`: `remove_node` finds nothing to detach
+example : (removeNode c16Root ([.str "a", .str "l"] ++ [.int (-1)])) = none := rfl
+example : (removeNode c16List ([] ++ [.int 1])).map (fun r => native r.2) =
+    some (.list [.scalar (.int 1), .scalar (.int 3)]) := rfl
+
+/- Without the mapping-parent hypothesis `C16_removeNode_removed` and `C16_removeNode_frame` are
+   FALSE: removing element 0 of `[1, 2, 3]` leaves `[2, 3]`, so the removed path `[0]` now finds the
+   former element 1, and the sibling path `[1]` (disjoint from `[0]`) finds `3` instead of `2`. -/
+theorem C16_removeNode_list_counterexample :
+    (removeNode c16List [.int 0]).map (fun r => (getNode r.2 [.int 0]).map native) =
+      some (some (.scalar (.int 2))) ∧
+    (removeNode c16List [.int 0]).map (fun r => (getNode r.2 [.int 1]).map native) =
+      some (some (.scalar (.int 3))) ∧
+    (getNode c16List [.int 1]).map native = some (.scalar (.int 2)) ∧
+    ¬ [Key.int 0] <+: [Key.int 1] ∧ ¬ [Key.int 1] <+: [Key.int 0] :=
+  ⟨rfl, rfl, rfl, by decide, by decide⟩
+
+example : (removeNode c16List [.int 0]).map (fun r => native r.2) =
+    some (.list [.scalar (.int 2), .scalar (.int 3)]) := rfl
+
+/-! ### Several operators in one stage -/
+
+/- "every sequence of several such operators": the loop over the children of a stage mapping
+   (`map_nodes` in `ComposedNode.on_premerge_impl`) runs the pre-merge of the first child on the
+   current accumulated tree and the rest of the loop on the tree the first child leaves behind
+   (document order); a child that returns another object is recorded as a re-set. -/
+theorem C16_premerge_sequential (rec : Node → Path → Option Node → PM) (path : Path) (name : Key)
+    (c : Node) (rest : List (Key × Node)) (into : Option Node) :
+    premergeChildren rec path ((name, c) :: rest) into =
+      match rec c (path ++ [name]) into with
+      | .error e => .error e
+      | .ok (c', same, into') =>
+        match premergeChildren rec path rest into' with
+        | .error e => .error e
+        | .ok (cs', resets, into'') =>
+          if same then .ok ((name, c') :: cs', resets, into'')
+          else .ok ((name, c) :: cs', (name, c') :: resets, into'') :=
+  c16_premergeChildren_cons rec path name c rest into
+
+example : (premergeChildren (premergeF 1) [] c16StageAB.children (some c16RootL)).map
+    (fun r => (nativeList r.2.1, r.2.2.map native)) =
+    .ok ([(.str "a", .scalar (.int 1)), (.str "b", .scalar (.int 3))],
+      some (.dict [(.str "l", .list [.scalar (.int 2)])])) := rfl
+
+/- The accumulated tree alone: `into` after the loop = `into` after the rest of the loop started
+   from what the first child left. -/
+theorem C16_premerge_sequential_into (rec : Node → Path → Option Node → PM) (path : Path)
+    (name : Key) (c : Node) (rest : List (Key × Node)) (into : Option Node) :
+    (premergeChildren rec path ((name, c) :: rest) into).map (fun r => r.2.2) =
+      match rec c (path ++ [name]) into with
+      | .error e => .error e
+      | .ok (_, _, into') => (premergeChildren rec path rest into').map (fun r => r.2.2) :=
+  c16_premergeChildren_into rec path name c rest into
+
+example : ((premergeChildren (premergeF 1) [] c16StageAB.children (some c16RootL)).map
+    (fun r => r.2.2)).toBool = true := rfl
+
+/- Is the result independent of the order in which two operators at different paths are written?
+   NO when they address elements of the same list: on the tree `{l: [1, 2, 3]}` the stage
+   `{a: !prev l[0], b: !prev l[1]}` takes `1` and then — the list having shifted — `3`, leaving
+   `l: [2]`, whereas `{b: !prev l[1], a: !prev l[0]}` takes `2` and `1`, leaving `l: [3]`. -/
+theorem C16_premerge_order_counterexample :
+    (premergeF 2 c16StageAB [] (some c16RootL)).map (fun r => (native r.1, r.2.2.map native)) =
+      .ok (.dict [(.str "a", .scalar (.int 1)), (.str "b", .scalar (.int 3))],
+        some (.dict [(.str "l", .list [.scalar (.int 2)])])) ∧
+    (premergeF 2 c16StageBA [] (some c16RootL)).map (fun r => (native r.1, r.2.2.map native)) =
+      .ok (.dict [(.str "b", .scalar (.int 2)), (.str "a", .scalar (.int 1))],
+        some (.dict [(.str "l", .list [.scalar (.int 3)])])) ∧
+    (premergeF 2 c16StageAB [] (some c16RootL)).map (fun r => r.2.2.map native) ≠
+      (premergeF 2 c16StageBA [] (some c16RootL)).map (fun r => r.2.2.map native) := by
+  refine ⟨rfl, rfl, ?_⟩
+  have h1 : (premergeF 2 c16StageAB [] (some c16RootL)).map (fun r => r.2.2.map native) =
+      .ok (some (.dict [(.str "l", .list [.scalar (.int 2)])])) := rfl
+  have h2 : (premergeF 2 c16StageBA [] (some c16RootL)).map (fun r => r.2.2.map native) =
+      .ok (some (.dict [(.str "l", .list [.scalar (.int 3)])])) := rfl
+  rw [h1, h2]
+  simp
+
+example : splitPath "l[0]" = some [.str "l", .int 0] ∧ splitPath "l[1]" = some [.str "l", .int 1] := by
+  decide
+
+/- The positive answer: two `remove_node` calls at disjoint paths (neither a prefix of the other)
+   whose parent containers are mappings commute — the same two nodes are detached and the final
+   tree is the same, whichever is removed first. (The counterexample above has a list parent.) -/
+theorem C16_removeNode_commute (root : Node) (pp1 pp2 : Path) (k1 k2 : Key) (d1 r1 d2 r12 : Node)
+    (f1 f2 : Flags) (pk1 pk2 : CompKind) (cs1 cs2 : List (Key × Node))
+    (hg1 : getNode root pp1 = some (.comp f1 pk1 cs1)) (hk1 : pk1.isDictFam = true)
+    (hg2 : getNode root pp2 = some (.comp f2 pk2 cs2)) (hk2 : pk2.isDictFam = true)
+    (hp1 : ¬ (pp1 ++ [k1]) <+: (pp2 ++ [k2])) (hp2 : ¬ (pp2 ++ [k2]) <+: (pp1 ++ [k1]))
+    (h1 : removeNode root (pp1 ++ [k1]) = some (d1, r1))
+    (h2 : removeNode r1 (pp2 ++ [k2]) = some (d2, r12)) :
+    ∃ r2, removeNode root (pp2 ++ [k2]) = some (d2, r2) ∧
+      removeNode r2 (pp1 ++ [k1]) = some (d1, r12) :=
+  c16_removeNode_comm _ _ root d1 r1 d2 r12 hp1 hp2
+    (c16_dictParent_of_getNode pp1 k1 root f1 pk1 cs1 hg1 hk1)
+    (c16_dictParent_of_getNode pp2 k2 root f2 pk2 cs2 hg2 hk2) h1 h2
+
+example : ∃ r1 r12, removeNode c16Root ([.str "a"] ++ [.str "l"]) = some (c16List, r1) ∧
+    removeNode r1 ([] ++ [.str "b"]) = some (c16Leaf 7, r12) ∧
+    ¬ ([Key.str "a"] ++ [Key.str "l"]) <+: ([] ++ [Key.str "b"]) ∧
+    ¬ ([] ++ [Key.str "b"]) <+: ([Key.str "a"] ++ [Key.str "l"]) :=
+  ⟨_, _, rfl, rfl, by decide, by decide⟩
+
+/- The same for two `!prev` operators of one stage: if `{n1: !prev s1, n2: !prev s2}` succeeds and
+   the two target paths are disjoint with mapping parents, then the stage with the two entries
+   written in the other order succeeds as well, the two keys receive the same subtrees and the
+   accumulated tree ends up the same. -/
+theorem C16_prev_commute (fuel : Nat) (path : Path) (root : Node) (n1 n2 : Key) (fl1 fl2 : Flags)
+    (s1 s2 : String) (pp1 pp2 : Path) (k1 k2 : Key) (d1 r1 d2 r12 : Node)
+    (f1 f2 : Flags) (pk1 pk2 : CompKind) (cs1 cs2 : List (Key × Node))
+    (hs1 : splitPath s1 = some (pp1 ++ [k1])) (hs2 : splitPath s2 = some (pp2 ++ [k2]))
+    (hg1 : getNode root pp1 = some (.comp f1 pk1 cs1)) (hk1 : pk1.isDictFam = true)
+    (hg2 : getNode root pp2 = some (.comp f2 pk2 cs2)) (hk2 : pk2.isDictFam = true)
+    (hp1 : ¬ (pp1 ++ [k1]) <+: (pp2 ++ [k2])) (hp2 : ¬ (pp2 ++ [k2]) <+: (pp1 ++ [k1]))
+    (h1 : removeNode root (pp1 ++ [k1]) = some (d1, r1))
+    (h2 : removeNode r1 (pp2 ++ [k2]) = some (d2, r12)) :
+    premergeChildren (premergeF (fuel + 1)) path
+        [(n1, .leaf fl1 (.prev s1)), (n2, .leaf fl2 (.prev s2))] (some root) =
+      .ok ([(n1, .leaf fl1 (.prev s1)), (n2, .leaf fl2 (.prev s2))], [(n1, d1), (n2, d2)], some r12) ∧
+    premergeChildren (premergeF (fuel + 1)) path
+        [(n2, .leaf fl2 (.prev s2)), (n1, .leaf fl1 (.prev s1))] (some root) =
+      .ok ([(n2, .leaf fl2 (.prev s2)), (n1, .leaf fl1 (.prev s1))], [(n2, d2), (n1, d1)], some r12) := by
+  obtain ⟨r2, e1, e2⟩ := C16_removeNode_commute root pp1 pp2 k1 k2 d1 r1 d2 r12 f1 f2 pk1 pk2 cs1 cs2
+    hg1 hk1 hg2 hk2 hp1 hp2 h1 h2
+  constructor
+  · simp [premergeChildren, premergeF, hs1, hs2, h1, h2]
+  · simp [premergeChildren, premergeF, hs1, hs2, e1, e2]
+
+example : splitPath "a.l" = some ([.str "a"] ++ [.str "l"]) ∧ splitPath "b" = some ([] ++ [.str "b"]) := by
+  decide
+example : (premergeChildren (premergeF 1) []
+      [(.str "q", .leaf {} (.prev "a.l")), (.str "r", .leaf {} (.prev "b"))] (some c16Root)).map
+      (fun r => (nativeList r.2.1, r.2.2.map native)) =
+    .ok ([(.str "q", .list [.scalar (.int 1), .scalar (.int 2), .scalar (.int 3)]), (.str "r", .scalar (.int 7))],
+      some (.dict [(.str "a", .dict [(.str "x", .scalar (.int 5))])])) := rfl
+
+/-! ### The operators change the accumulated tree only through `remove_node` -/
+
+/- "In all cases every other path keeps its value": whenever one of the three operators succeeds
+   on an accumulated tree `root`, the tree it leaves behind is either `root` itself or the result
+   `root'` of one `remove_node` — at the operator's own path for `!append` / `!extend`, at the
+   target path for `!prev` — so the frame theorems `C16_removeNode_frame`,
+   `C16_removeNode_frame_outside_parent`, `C16_removeNode_ancestor` describe everything that
+   changes in the accumulated tree. -/
+theorem C16_operator_into (fuel : Nat) (n : Node) (f : Flags) (cs : List (Key × Node)) (p : String)
+    (path : Path) (root r : Node) (s : Bool) (into' : Option Node)
+    (hn : n = .comp f .append cs ∨ n = .comp f .extend cs ∨ n = .leaf f (.prev p))
+    (h : premergeF (fuel + 1) n path (some root) = .ok (r, s, into')) :
+    s = false ∧ (into' = some root ∨
+      ∃ tp d root', into' = some root' ∧ removeNode root tp = some (d, root') ∧
+        (tp = path ∨ splitPath p = some tp)) := by
+  rcases hn with rfl | rfl | rfl
+  · simp only [premergeF] at h
+    cases hr : removeNode root path with
+    | none => simp [hr] at h
+    | some res =>
+      obtain ⟨d, root'⟩ := res
+      cases d with
+      | leaf lf lk => simp [hr] at h
+      | comp tf tk tcs =>
+        simp only [hr] at h
+        split at h
+        · simp only [Except.ok.injEq, Prod.mk.injEq] at h
+          exact ⟨h.2.1.symm, .inr ⟨path, _, root', h.2.2.symm, hr, .inl rfl⟩⟩
+        · cases h
+  · simp only [premergeF] at h
+    cases hg : getNode root path with
+    | none =>
+      simp only [hg, Except.ok.injEq, Prod.mk.injEq] at h
+      exact ⟨h.2.1.symm, .inl h.2.2.symm⟩
+    | some m =>
+      cases m with
+      | leaf lf lk =>
+        simp only [hg, Except.ok.injEq, Prod.mk.injEq] at h
+        exact ⟨h.2.1.symm, .inl h.2.2.symm⟩
+      | comp tf tk tcs =>
+        simp only [hg] at h
+        split at h
+        · cases hr : removeNode root path with
+          | none => simp [hr] at h
+          | some res =>
+            obtain ⟨d, root'⟩ := res
+            simp only [hr, Except.ok.injEq, Prod.mk.injEq] at h
+            exact ⟨h.2.1.symm, .inr ⟨path, d, root', h.2.2.symm, hr, .inl rfl⟩⟩
+        · simp only [Except.ok.injEq, Prod.mk.injEq] at h
+          exact ⟨h.2.1.symm, .inl h.2.2.symm⟩
+  · simp only [premergeF] at h
+    cases hs : splitPath p with
+    | none => simp [hs] at h
+    | some tp =>
+      cases hr : removeNode root tp with
+      | none => simp [hs, hr] at h
+      | some res =>
+        obtain ⟨d, root'⟩ := res
+        simp only [hs, hr, Except.ok.injEq, Prod.mk.injEq] at h
+        exact ⟨h.2.1.symm, .inr ⟨tp, d, root', h.2.2.symm, hr, .inr rfl⟩⟩
+
+example : ∃ r s into', premergeF 1 (.comp {} .extend c16New) [.str "a", .str "l"] (some c16Root) =
+    .ok (r, s, into') := ⟨_, _, _, rfl⟩
+
+/-! ### One whole builder step (pre-merge, then merge) at a top-level key -/
+
+/- "'p: !append L' makes the value at p the previous list followed by the elements of L … every
+   other path keeps its value", end to end for a top-level key: one step of `Builder.flatten`
+   (`flattenLoop`: pre-merge of the stage against the accumulated mapping, then `merge`) with the
+   stage `{k: !append L}` on an accumulated mapping with distinct keys that holds a list-family
+   node under `k` succeeds; the data of the result is the old mapping without `k` (all other keys
+   with their data, in their order) followed by `k: old ++ L`  (a moved key is re-inserted at the
+   end).  Side conditions: the stage mapping is not deleting (`hdel`, the default) and `allow_new`
+   does not forbid the new key (`hnew`, the default). -/
+theorem C16_append_stage (fuel : Nat) (rf sf f : Flags) (rcs cs : List (Key × Node)) (k : Key)
+    (tf : Flags) (tk : CompKind) (tcs : List (Key × Node))
+    (hl : alookup k rcs = some (.comp tf tk tcs)) (hk : tk.isListFam = true)
+    (hnd : keysNodup rcs = true) (hdel : eDel (.comp sf .dict []) = false)
+    (hnew : reqNew [] [] (adopt sf .dict (.comp tf tk (extendList tf tk tcs (cs.map (·.2))))) = none) :
+    ∃ r, flattenLoop (premergeF (fuel + 2)) (.comp rf .dict rcs)
+        [.comp sf .dict [(k, .comp f .append cs)]] = .ok r ∧
+      native r = .dict (nativeList (aerase k rcs) ++
+        [(k, .list (nativeVals tcs ++ cs.map (fun kv => native kv.2)))]) := by
+  have hr : removeNode (.comp rf .dict rcs) [k] =
+      some (.comp tf tk tcs, .comp rf .dict (aerase k rcs)) := by
+    rw [c16_removeNode_single_dict rf .dict rcs k rfl, hl]
+  have hpm := C16_append fuel f cs [k] _ _ tf tk tcs hr hk
+  obtain ⟨r, h1, h2⟩ := c16_stage_one fuel rf sf rcs (aerase k rcs) k _ _
+    (c16_alookup_aerase_self k rcs hnd) hpm hdel hnew
+  refine ⟨r, h1, ?_⟩
+  have hd : tk.isDictFam = false := by simpa [CompKind.isListFam] using hk
+  rw [h2]
+  simp [native, hd, c16_nativeVals_extendList, List.map_map, Function.comp_def]
+
+example : alookup (.str "l") c16RootL.children = some c16List ∧ keysNodup c16RootL.children = true ∧
+    eDel (.comp {} .dict []) = false := ⟨rfl, by decide, by decide⟩
+example : reqNew [] [] (adopt {} .dict (.comp {} .list
+    (extendList {} .list c16List.children (c16New.map (·.2))))) = none := by decide
+example : (flattenLoop (premergeF 2) c16RootL [.comp {} .dict [(.str "l", .comp {} .append c16New)]]).map
+    native = .ok (.dict [(.str "l", .list [.scalar (.int 1), .scalar (.int 2), .scalar (.int 3),
+      .scalar (.int 8), .scalar (.int 9)])]) := rfl
+
+/- "'q: !prev p' places the entire previous subtree of p at q and removes it from p", end to end
+   for a top-level `p` and a key `q` that is new (or `p` itself): the result is the old mapping
+   without `p`, followed by `q` holding the data of the whole old subtree. -/
+theorem C16_prev_stage (fuel : Nat) (rf sf f : Flags) (rcs : List (Key × Node)) (p : String)
+    (k q : Key) (d : Node) (hs : splitPath p = some [k]) (hl : alookup k rcs = some d)
+    (hq : alookup q rcs = none ∨ q = k) (hnd : keysNodup rcs = true)
+    (hdel : eDel (.comp sf .dict []) = false) (hnew : reqNew [] [] (adopt sf .dict d) = none) :
+    ∃ r, flattenLoop (premergeF (fuel + 2)) (.comp rf .dict rcs)
+        [.comp sf .dict [(q, .leaf f (.prev p))]] = .ok r ∧
+      native r = .dict (nativeList (aerase k rcs) ++ [(q, native d)]) := by
+  have hr : removeNode (.comp rf .dict rcs) [k] = some (d, .comp rf .dict (aerase k rcs)) := by
+    rw [c16_removeNode_single_dict rf .dict rcs k rfl, hl]
+  have hpm := C16_prev_moves fuel f p [q] [k] _ _ d hs hr
+  have hq' : alookup q (aerase k rcs) = none := by
+    rcases hq with hq | rfl
+    · by_cases e : k = q
+      · subst e; exact c16_alookup_aerase_self k rcs hnd
+      · rw [alookup_aerase q k e]; exact hq
+    · exact c16_alookup_aerase_self q rcs hnd
+  exact c16_stage_one fuel rf sf rcs (aerase k rcs) q _ _ hq' hpm hdel hnew
+
+example : splitPath "l" = some [.str "l"] ∧ alookup (.str "moved") c16RootL.children = none ∧
+    reqNew [] [] (adopt {} .dict c16List) = none := by decide
+example : (flattenLoop (premergeF 2) c16Root [.comp {} .dict [(.str "moved", .leaf {} (.prev "a"))]]).map
+    native = .ok (.dict [(.str "b", .scalar (.int 7)), (.str "moved", .dict [(.str "l",
+      .list [.scalar (.int 1), .scalar (.int 2), .scalar (.int 3)]), (.str "x", .scalar (.int 5))])]) := rfl
+
+/- "'!extend' … silently becomes a plain list when there is nothing to extend", end to end for a
+   top-level key the accumulated mapping does not have: the old mapping keeps all its entries and
+   gains `q: L`. -/
+theorem C16_extend_stage_fallback (fuel : Nat) (rf sf f : Flags) (rcs cs : List (Key × Node)) (q : Key)
+    (hq : alookup q rcs = none) (hdel : eDel (.comp sf .dict []) = false)
+    (hnew : reqNew [] [] (adopt sf .dict (newPlainList (cs.map (·.2)))) = none) :
+    ∃ r, flattenLoop (premergeF (fuel + 2)) (.comp rf .dict rcs)
+        [.comp sf .dict [(q, .comp f .extend cs)]] = .ok r ∧
+      native r = .dict (nativeList rcs ++ [(q, .list (cs.map (fun kv => native kv.2)))]) := by
+  have hpm := C16_extend_fallback fuel f cs [q] (.comp rf .dict rcs)
+    (by intro tf tk tcs hg; simp [getNode, hq] at hg)
+  obtain ⟨r, h1, h2⟩ := c16_stage_one fuel rf sf rcs rcs q _ _ hq hpm hdel hnew
+  refine ⟨r, h1, ?_⟩
+  rw [h2, c16_native_newPlainList]
+  simp [List.map_map, Function.comp_def]
+
+example : alookup (.str "z") c16Root.children = none ∧
+    reqNew [] [] (adopt {} .dict (newPlainList (c16New.map (·.2)))) = none := by decide
+example : (flattenLoop (premergeF 2) c16RootL [.comp {} .dict [(.str "z", .comp {} .extend c16New)]]).map
+    native = .ok (.dict [(.str "l", .list [.scalar (.int 1), .scalar (.int 2), .scalar (.int 3)]),
+      (.str "z", .list [.scalar (.int 8), .scalar (.int 9)])]) := rfl
+
+/-! ### The representation invariant used above is maintained -/
+
+/- `c16_numbered` ("every list-family container stores its elements under the keys 0 … n-1", the
+   hypothesis of `C16_extend_of_getNode`) is an invariant of the three operators: if the
+   accumulated tree and the elements of `L` satisfy it, so do the node that replaces the operator
+   and the accumulated tree the operator leaves behind — hence the hypothesis is available again
+   for the next operator of the sequence. -/
+theorem C16_numbered_preserved (fuel : Nat) (n : Node) (f : Flags) (cs : List (Key × Node))
+    (p : String) (path : Path) (root r root' : Node) (s : Bool)
+    (hn : n = .comp f .append cs ∨ n = .comp f .extend cs ∨ n = .leaf f (.prev p))
+    (hroot : c16_numbered root = true) (hcs : c16_numberedList cs = true)
+    (h : premergeF (fuel + 1) n path (some root) = .ok (r, s, some root')) :
+    c16_numbered r = true ∧ c16_numbered root' = true := by
+  have hvs := c16_numbered_values hcs
+  rcases hn with rfl | rfl | rfl
+  · simp only [premergeF] at h
+    cases hr : removeNode root path with
+    | none => simp [hr] at h
+    | some res =>
+      obtain ⟨d, root1⟩ := res
+      obtain ⟨hd, hr1⟩ := c16_numbered_removeNode hroot hr
+      cases d with
+      | leaf lf lk => simp [hr] at h
+      | comp tf tk tcs =>
+        simp only [hr] at h
+        split at h
+        · simp only [Except.ok.injEq, Prod.mk.injEq, Option.some.injEq] at h
+          obtain ⟨rfl, _, rfl⟩ := h
+          exact ⟨c16_numbered_extend hd hvs, hr1⟩
+        · cases h
+  · simp only [premergeF] at h
+    cases hg : getNode root path with
+    | none =>
+      simp only [hg, Except.ok.injEq, Prod.mk.injEq, Option.some.injEq] at h
+      obtain ⟨rfl, _, rfl⟩ := h
+      exact ⟨c16_numbered_newPlainList hvs, hroot⟩
+    | some m =>
+      cases m with
+      | leaf lf lk =>
+        simp only [hg, Except.ok.injEq, Prod.mk.injEq, Option.some.injEq] at h
+        obtain ⟨rfl, _, rfl⟩ := h
+        exact ⟨c16_numbered_newPlainList hvs, hroot⟩
+      | comp tf tk tcs =>
+        simp only [hg] at h
+        split at h
+        · cases hr : removeNode root path with
+          | none => simp [hr] at h
+          | some res =>
+            obtain ⟨d, root1⟩ := res
+            simp only [hr, Except.ok.injEq, Prod.mk.injEq, Option.some.injEq] at h
+            obtain ⟨rfl, _, rfl⟩ := h
+            exact ⟨c16_numbered_extend (c16_numbered_getNode path root _ hroot hg) hvs,
+              (c16_numbered_removeNode hroot hr).2⟩
+        · simp only [Except.ok.injEq, Prod.mk.injEq, Option.some.injEq] at h
+          obtain ⟨rfl, _, rfl⟩ := h
+          exact ⟨c16_numbered_newPlainList hvs, hroot⟩
+  · simp only [premergeF] at h
+    cases hs : splitPath p with
+    | none => simp [hs] at h
+    | some tp =>
+      cases hr : removeNode root tp with
+      | none => simp [hs, hr] at h
+      | some res =>
+        obtain ⟨d, root1⟩ := res
+        simp only [hs, hr, Except.ok.injEq, Prod.mk.injEq, Option.some.injEq] at h
+        obtain ⟨rfl, _, rfl⟩ := h
+        exact c16_numbered_removeNode hroot hr
+
+example : c16_numbered c16Root = true ∧ c16_numberedList c16New = true := by decide
+example : ∃ r s root', premergeF 1 (.comp {} .append c16New) [.str "a", .str "l"] (some c16Root) =
+    .ok (r, s, some root') := ⟨_, _, _, rfl⟩
+
 end AY
